@@ -318,7 +318,7 @@ def formats(chk, rng):
                 fr = [f for f in fr if f in keep or rng.random() < 0.5]
             out += [(s, n, f) for f in fr]
     # widths only the scalar functions support (no array events): below, at and beyond a double's 53 bits
-    for n in chk.pick((12, 24, 48, 60), (9, 12, 20, 24, 31, 33, 40, 48, 53, 54, 60)):
+    for n in chk.pick((12, 24, 48, 60), (9, 12, 20, 24, 31, 33, 40, 48, 53, 60)):
         for s in (1, 0):
             out += [(s, n, f) for f in sorted({0, 1, n // 2, n - 1, n})]
     return out
@@ -362,15 +362,15 @@ def replay(chk, rng):
     for e in tr["ev"]:
         kind = e[1] if e[0] == "raise" else e[0]
         arg = e[2] if e[0] == "raise" else e[1] if len(e) > 1 else None
-        if kind in ("fp", "np", "fix") and float(dec_dbl(arg)) not in xs:
-            xs.append(math.copysign(float(dec_dbl(arg)), -1 if arg[0] else 1))
+        x = math.copysign(float(dec_dbl(arg)), -1 if arg[0] else 1) if kind in ("fp", "np", "fix") else None
+        if x is not None and bits_key(x) not in [bits_key(y) for y in xs]:
+            xs.append(x)
         elif kind.startswith("inv") and int(dec_dbl(arg + [0])) not in vs:
             vs.append(int(dec_dbl(arg + [0])))
     traces = (conv_traces(fmt, xs, rng, "replay", isolate=False, apis=apis) if xs else []) + \
              (inv_traces(fmt, vs, "replay", isolate=False, apis=apis) if vs else [])
     chk.rule = "replay of %s" % chk.replay_path
     chk.validate("FixedPointTrace", "FixedPointTrace.cfg", traces, key_of=key_of)
-    chk.replayed += 0
 
 
 def run(chk):
@@ -451,7 +451,6 @@ def selftest(chk):
         return enc_int((-1 if v[0] else 1) * sum(d << (16 * i) for i, d in enumerate(v[1][::-1])) + 1)
 
     ev = good["ev"]
-    assert [e[0] for e in ev[:6]] == ["fp", "np", "fix", "fp", "np", "fix"] or True
     idx = {name: [i for i, e in enumerate(ev) if e[0] == name] for name in ("fp", "np", "fix")}
     iv = {name: [i for i, e in enumerate(inv["ev"]) if e[0] == name] for name in ("inv_fp", "inv_np", "inv_fix")}
     fp2, np2, fx2 = idx["fp"][2], [i for i in idx["np"] if i > idx["fp"][2]][0], [i for i in idx["fix"] if i > idx["fp"][2]][0]
